@@ -20,7 +20,7 @@ def sh(cmd, **kw):
 
 def main():
     ids = sys.argv[1:] or sorted(os.listdir(os.path.join(VERIF, "seeded")))
-    rc, out = sh("git -C %s status --porcelain" % REPO)
+    rc, out = sh("git -C %s status --porcelain --untracked-files=no" % REPO)
     if out.strip():
         sys.exit("refusing to run: /repo has uncommitted changes:\n" + out)
     head = sh("git -C %s rev-parse --short HEAD" % REPO)[1].strip()
